@@ -169,6 +169,40 @@ def clone_group_specs():
     return out
 
 
+def sort_specs():
+    """Targeted family for sort(deep=True): unsorted child lists at depth 1..3 below chains of single-child nodes and
+    next to already sorted / one-element / empty lists (5..7 nodes, beyond the exhaustive bound)."""
+    N = None
+    shapes = [
+        # P > C > [z x y]
+        ((-1, "p"), (0, "c"), (1, "z"), (1, "x"), (1, "y")),
+        # P > C > D > [z x]
+        ((-1, "p"), (0, "c"), (1, "d"), (2, "z"), (2, "x")),
+        # two top nodes (unsorted), the second a chain above an unsorted pair
+        ((-1, "q"), (-1, "p"), (1, "c"), (2, "z"), (2, "x")),
+        # an unsorted list whose first element is a chain above another unsorted list
+        ((-1, "p"), (0, "z"), (1, "m"), (2, "y"), (2, "x"), (0, "a")),
+        # sorted at the top, unsorted below a two-child node and below a single-child node
+        ((-1, "a"), (0, "y"), (0, "x"), (-1, "b"), (3, "c"), (4, "z"), (4, "w")),
+    ]
+    return [gen.Spec(tuple((p, lab, N, N) for p, lab in sh)) for sh in shapes]
+
+
+def _sort_chunk(chunk, prop):
+    res = Result(prop)
+    for spec in chunk:
+        P = [-1] + list(range(len(spec)))
+        for op in (("sort", p, key, rev, deep) for p in P for key in ops.SORT_KEYS for rev in (False, True) for deep in (False, True)):
+            w = ops.World(spec)
+            before = view.obs(w.tree)
+            diffs = ops.step(w, op)
+            res.add_case(f"{spec.short()} :: {op}", nontrivial=view.obs(w.tree) != before or bool(diffs))
+            for clause, text in diffs:
+                if prop in props_of(op, clause, text):
+                    res.violations.append(Violation(prop, clause, FUNC_OF_OP[op[0]], {"kind": "op", "spec": _spec_json(spec), "flavour": "str", "op": _op_json(op)}, clip(text)))
+    return res
+
+
 def _targeted_chunk(chunk, prop):
     res = Result(prop)
     for spec in chunk:
@@ -203,6 +237,9 @@ def sweep(prop: str, tier: str) -> Result:
     if prop in ("C01", "C02", "C03", "C04", "C13"):
         total.merge(parallel(_targeted_chunk, clone_group_specs(), prop, prop=prop))
         total.bounds["clone groups (targeted)"] = "three parents each holding a clone x, with/without a child d below x and a sibling d next to x (<= 4 extras), plus a clone nested in a clone and chains of 2..3 directly nested clones x[x[..]] with d below the innermost and/or next to each level: remove (all flag combinations), set_data (with_clones None/False/True) and move_to of every clone"
+    if "sort" in groups:
+        total.merge(parallel(_sort_chunk, sort_specs(), prop, prop=prop))
+        total.bounds["deep sort (targeted)"] = "5 trees of 5..7 nodes with unsorted child lists at depth 1..3 below single-child chains and next to sorted / one-element lists: sort_children / Tree.sort from every node, every key, reverse and deep on/off"
     total.merge(histories(prop, tier))
     return total
 
